@@ -75,6 +75,7 @@ type Contract struct {
 	Iterates          string             // callback parameter this function calls once per element of a store range (and does nothing else to the state)
 	CallbackExits     map[string]*Clause // callee key -> what holds when the callback stops the loop (default: the invariant)
 	CallbackInvs      map[string]*Clause // callee key -> inductive invariant of the loop that callee runs over this function's callback
+	Unroll            int      // with loop-bounded: iterations after which a loop of this function's run is cut (default: the global bound)
 	LoopBounded       bool     // loops cut at the unrolling bound are accepted; the obligations are labelled bounded
 	CallersAssumed    string
 	CallersAssumedFor map[string]string
@@ -548,6 +549,12 @@ func (ss *SpecSet) directive(cur **Contract, pkgPath, file string, ln int, body 
 		// under verification see the body (both are sound; the body keeps the detail the
 		// module's own invariants need)
 		(*cur).InlineOwn = true
+	case "unroll":
+		n, err := strconv.Atoi(strings.TrimSpace(rest))
+		if err != nil || n < 1 || *cur == nil {
+			return fail(fmt.Errorf("unroll <n>"))
+		}
+		(*cur).Unroll = n
 	case "loop-bounded":
 		// the function iterates a store range of unknown length: its obligations are decided for
 		// every run of at most the unrolling bound iterations and labelled BOUNDED (not a proof
